@@ -29,13 +29,15 @@ def load_mutants(prop):
 
 
 def apply_edits(root, edits):
-    """edits: [(relative file, old, new)] — each old must occur exactly once."""
-    for rel, old, new in edits:
+    """edits: [(relative file, old, new[, count])] — each old must occur exactly once (or `count` times)."""
+    for e in edits:
+        rel, old, new = e[0], e[1], e[2]
+        want = e[3] if len(e) > 3 else 1          # optional 4th element: the anchor occurs exactly this often, all are replaced
         p = os.path.join(root, rel)
         if not os.path.exists(p):
             return "missing file " + rel
         s = open(p, encoding="utf-8", errors="surrogateescape").read()
-        if s.count(old) != 1:
+        if s.count(old) != want:
             return "anchor text occurs %d times in %s" % (s.count(old), rel)
         s = s.replace(old, new)
         open(p, "w", encoding="utf-8", errors="surrogateescape").write(s)
